@@ -100,7 +100,19 @@ def job_conv(res, kind, ip, h, frames, seed=0):
         def dev(phi):
             ref = ref_rows(g, L, M, nx, ny, phi)
             return max([abs(row.get(s, 0) - rr[j]) for row, rr in zip(rows, ref) for j, s in enumerate(insyms)] + [abs(row.get(1, 0)) for row in rows])
-        cands = [phi_fixed] if phi_fixed is not None else range(-len(g) - L * M, len(g) + L * M + 1)
+        if phi_fixed is not None: cands = [phi_fixed]
+        else:
+            # the phase is pinned by the matrix itself: a non-zero coefficient c of x[j] in y[i] must be some g[k] with k = i*M + phi - j*L; intersect the candidate sets of a few entries
+            cset = None
+            for i_, row in enumerate(rows[:4]):
+                for j_, s_ in enumerate(insyms):
+                    cv = row.get(s_, 0)
+                    if cv == 0: continue
+                    S = {k_ - i_ * M + j_ * L for k_, gv in enumerate(g) if abs(gv - cv) <= tol}
+                    cset = S if cset is None else (cset & S)
+                    if cset is not None and len(cset) <= 2: break
+                if cset is not None and len(cset) <= 2: break
+            cands = sorted(cset) if cset else range(-len(g) - L - M, len(g) + L + M + 1)
         found = None
         for phi in cands:
             if dev(phi) <= tol: found = phi; break
